@@ -137,6 +137,8 @@ def m_alt12(ctx, case):
             me = (tc << 51) | (rng.getrandbits(3) << 48) | (v << 36) | rng.getrandbits(36)
             f = bits.es_frame(rng.choice((17, 18)), rng.randrange(8), rng.getrandbits(24), me)
             hx = "%028X" % f
+            if (v + tc) % 7 == 0:
+                hx = hx.lower()
             if 9 <= tc <= 18:
                 code13 = ((v >> 6) << 7) | (v & 0x3F)  # widen with M=0
                 exp = T[code13]
